@@ -87,6 +87,17 @@ WDeepIn ==
         (P :> <<>>) @@ (PQ :> <<>>) @@ (PQC :> LibB(PQC)) @@ (PB :> LibC(PB)) @@ (<<"p", "q", "a">> :> <<>>),
         {P, PQ}, <<<<"p", "q", "a">>>>, {<<"p", "q", "a">>})
 
+\* flat, with two libraries whose rendered names extend one another textually (module_bb2 /
+\* module_bb, see NAMES in bind/_pymodules.py): nothing but the spelling relates them
+B2 == <<"b2">>
+WFlatSib == World("flatsib", (A :> <<>>) @@ (B :> LibB(B)) @@ (B2 :> LibC(B2)), {}, <<A>>, {A})
+\* the same inside a package (p.b2 / p.b), tidied module p.a
+WPkgSib ==
+  World("pkgsib", (P :> <<>>) @@ (PB :> LibB(PB)) @@ (<<"p", "b2">> :> LibC(<<"p", "b2">>)) @@ (<<"p", "a">> :> <<>>),
+        {P}, <<<<"p", "a">>>>, {<<"p", "a">>})
+WorldsSib == {WFlatSib}
+WorldsPkgSib == {WPkgSib}
+
 MCWorlds == {WFlat}
 
 \* ---- worlds of C05 -------------------------------------------------------
